@@ -342,7 +342,8 @@ class Run:
     """Whole-run driver.  `picks` is the schedule vector (symbolic ints under CrossHair);
     `workers` maps a function-queue name to a policy callable(request_body) -> reply body
     (dict) or None (never replies)."""
-    def __init__(self, picks, workers=None, max_steps=80, eager_timer=None, on_step=None):
+    def __init__(self, picks, workers=None, max_steps=80, eager_timer=None, on_step=None, fast=False):
+        self.fast = fast            # run every engine action outside CrossHair's tracer (only the schedule is symbolic)
         self.picks = list(picks)
         self.pi = 0
         self.workers = workers or {}
@@ -409,6 +410,13 @@ class Run:
 
     # -- stepping -------------------------------------------------------------
     def fire(self, tid):
+        if self.fast:
+            from vf.s2 import untraced
+            with untraced():
+                return self._fire(tid)
+        return self._fire(tid)
+
+    def _fire(self, tid):
         ts = [t for t in BROKER.timers if t[1] == tid]
         if not ts:
             return
@@ -420,6 +428,13 @@ class Run:
         t[2]()
 
     def do(self, act):
+        if self.fast:
+            from vf.s2 import untraced
+            with untraced():
+                return self._do(act)
+        return self._do(act)
+
+    def _do(self, act):
         b = BROKER
         self.trace.append(act)
         if act[0] == "deliver":
@@ -435,7 +450,7 @@ class Run:
                 m.message_id = "reply-%d" % len(self.requests)
                 b.publish(req.reply_to, m)
         elif act[0] == "timer":
-            self.fire(act[1])
+            self._fire(act[1])
 
     def step(self, timer_horizon=None):
         """One scheduling step. Returns False at quiescence."""
